@@ -1292,13 +1292,33 @@ def check_e2e(ctx, pid):
     done = 0
     shard = 0
     st = ctx.streams.setdefault("e2e_three_way", {"cases": 0, "disagreements": 0, "dist": {"agree": 0, "known_deviation": 0, "outside_model": 0, "hook_modes": {}}})
+    first = True
     while done < n:
-        m = min(100, n - done)
-        ctx.seed_shift = shard
-        cases, rcases = e2e_cases(_Shift(ctx, shard), pid, m)
-        res = runner.run_cases(rcases)
-        metas, err = e2e.three_way(ctx.work, cases, res, "%s_%d" % (pid, shard))
-        shard += 1
+        if first:
+            # the corpus of hand-written / minimised cases runs first (refutation witnesses of the guard clauses included)
+            import corpus
+
+            cases, rcases = corpus.cases(pid)
+            m = 0
+            res = runner.run_cases(rcases)
+            metas, err = e2e.three_way(ctx.work, cases, res, "%s_corpus" % pid)
+            first = False
+            if not err:
+                seen = {c["mode"].split(":", 1)[1]: (meta.get("code", -1), meta.get("clauses") or []) for c, meta in zip(cases, metas)}
+                ctx.notes["corpus_verdicts"] = {k_: list(v_) for k_, v_ in seen.items()}
+                for w_ in corpus.WITNESSES:
+                    code_, cl_ = seen.get(w_, (-1, []))
+                    # a witness must still be a witness on the implementation: same behaviour as the model (no bits 1/2),
+                    # deviating from the reference (bit 32) with its own clause flagged
+                    if code_ < 0 or code_ & 3 or not (code_ & 32) or w_ not in cl_:
+                        ctx.broken.append("refutation witness %s no longer behaves as recorded (verdict bits %d, clauses %s): the implementation or the model changed" % (w_, code_, cl_))
+        else:
+            m = min(100, n - done)
+            ctx.seed_shift = shard
+            cases, rcases = e2e_cases(_Shift(ctx, shard), pid, m)
+            res = runner.run_cases(rcases)
+            metas, err = e2e.three_way(ctx.work, cases, res, "%s_%d" % (pid, shard))
+            shard += 1
         done += m
         if err:
             ctx.broken.append("three-way comparison could not be evaluated: " + err[-400:])
